@@ -421,13 +421,16 @@ def check_updates(ctx, terms=None):
     cur = 0
     buf = None
     held = []
-    for step in range(rng.randint(3, 10)):
+    # one way of handing updates over dominates a history (a caller usually
+    # sticks to one idiom)
+    mode = rng.choice(["fresh", "same array", "own array"])
+    for step in range(rng.randint(4, 12)):
         if rng.random() < 0.35:
             cur = rng.randrange(len(rlist))
             # how the caller hands the new values over: a fresh array, a
             # list, the array passed before edited in place, or the
             # network's own resistances edited in place
-            how = rng.choice(["fresh", "fresh", "list", "same array",
+            how = rng.choice([mode, mode, "fresh", "list", "same array",
                               "own array"])
             if how == "fresh":
                 net.update_resistances(rlist[cur].copy())
